@@ -33,6 +33,8 @@ BLOCKS = [
     "{|\n|-\n|%s\n|%s\n|-\n!%s\n|}\n", "{|\n|%s||%s\n|}\n", "{|\n!%s!!%s\n|}\n",
     '{|\n! scope="col" | %s\n! id="h2" | %s\n|- class="r"\n| %s\n|}\n', '{| id="t"\n|+ class="k" |%s\n|-\n! colspan="2" | %s\n|}\n',
     '{| class="class"\n|+ lang="lang" |%s\n|- id="id"\n! scope="scope" | %s\n| nowrap="nowrap" | %s\n|}\n',
+    # a list as the first thing inside a cell / a header cell / an element (the line break in front of it matters)
+    "{|\n|\n*%s\n*%s\n|}\n", '{|\n! h\n|-\n| class="c" |\n#%s\n|}\n', "<div>\n*%s\n</div>\n",
     '<div class="c"><span id="s">%s</span></div>\n', "{|\n|+ %s\n|}\n", "----\n", "<div>%s</div>\n", '<div id="i">\n%s\n</div>\n', ":%s\n",
 ]
 # cells glued to the inline cell separator; in the quick tier their second slot ranges over TIGHT_SECOND only
